@@ -397,7 +397,44 @@ func (s cmap6or10) Lookup(r rune) (GID, bool) {
 
 type cmap12 []tables.SequentialMapGroup
 
-func newCmap12(cm tables.CmapSubtable12) cmap12 { return cm.Groups }
+func newCmap12(cm tables.CmapSubtable12) cmap12 { return sanitizeMapGroups(cm.Groups, true) }
+
+// sanitizeMapGroups removes the invalid groups (end < start) and the overlaps between
+// successive groups (the first group wins), so that each rune is mapped once,
+// to the same glyph by Lookup and Iter.
+// The common case of a valid input is returned as it is.
+func sanitizeMapGroups(groups []tables.SequentialMapGroup, sequential bool) []tables.SequentialMapGroup {
+	isValid := true
+	for i, g := range groups {
+		if g.EndCharCode < g.StartCharCode || (i != 0 && g.StartCharCode <= groups[i-1].EndCharCode) {
+			isValid = false
+			break
+		}
+	}
+	if isValid {
+		return groups
+	}
+
+	out := make([]tables.SequentialMapGroup, 0, len(groups))
+	for _, g := range groups {
+		if g.EndCharCode < g.StartCharCode {
+			continue
+		}
+		if L := len(out); L != 0 && g.StartCharCode <= out[L-1].EndCharCode {
+			last := out[L-1]
+			if g.EndCharCode <= last.EndCharCode || g.StartCharCode < last.StartCharCode {
+				continue // entirely hidden, or not sorted
+			}
+			shift := last.EndCharCode + 1 - g.StartCharCode
+			g.StartCharCode += shift
+			if sequential {
+				g.StartGlyphID += shift
+			}
+		}
+		out = append(out, g)
+	}
+	return out
+}
 
 type cmap12Iter struct {
 	data cmap12
@@ -445,7 +482,7 @@ func (s cmap12) Lookup(r rune) (GID, bool) {
 
 type cmap13 []tables.SequentialMapGroup
 
-func newCmap13(cm tables.CmapSubtable13) cmap13 { return cm.Groups }
+func newCmap13(cm tables.CmapSubtable13) cmap13 { return sanitizeMapGroups(cm.Groups, false) }
 
 type cmap13Iter struct {
 	data cmap13
